@@ -18,6 +18,7 @@ package keystorev3
 
 import (
 	"bytes"
+	"crypto/aes"
 	"encoding/json"
 	"fmt"
 
@@ -176,6 +177,9 @@ func (w *walletFileScrypt) JSON() []byte {
 func (c *cryptoCommon) decryptCommon(derivedKey []byte) ([]byte, error) {
 	if len(derivedKey) != 32 {
 		return nil, fmt.Errorf("invalid scrypt keystore: derived key length %d != 32", len(derivedKey))
+	}
+	if len(c.CipherParams.IV) != aes.BlockSize {
+		return nil, fmt.Errorf("invalid keystore: iv length %d != %d", len(c.CipherParams.IV), aes.BlockSize)
 	}
 	// Last 16 bytes of derived key are used for MAC
 	derivedMac := generateMac(derivedKey[16:32], c.CipherText)
